@@ -60,7 +60,7 @@ SIZES = {
     'C09': {'quick': {'s1': 320, 'm': 4, 's2': 120, 'sweep': 0, 'midsweep': 0},
             'thorough': {'s1': 8000, 'm': 8, 's2': 3000, 'sweep': 48, 'midsweep': 12,
                          's2sweep': 16}},
-    'C13': {'quick': {'s3': 700}, 'thorough': {'s3enum': 40, 's3': 4000}},
+    'C13': {'quick': {'s3': 700}, 'thorough': {'s3enum': 120, 's3': 4000}},
     'C19': {'quick': {'s4': 600, 's1': 120, 'm': 2, 'vanish': 80, 's3': 60},
             'thorough': {'s4enum': 400, 's4': 20000, 's1': 3000, 'm': 3, 'vanish': 2000,
                          's3': 2000}},
@@ -85,6 +85,10 @@ def build_tasks(prop, tier, seed):
                     t['nboards'] = (1, 2, 2, 3)[i % 4]
             elif fam == 'sweep':
                 t.update(type='sweep', variant=i)
+            elif fam == 's3enum':
+                # three tasks per base scenario (same seed): offending actions, interrupts, leaves
+                t.update(type='s3enum', seed=task_seed(seed, prop + '/s3enum', i // 3),
+                         part=('offend', 'interrupt', 'leave')[i % 3])
             elif fam == 'midsweep':
                 # shapes 0 (one passed-out board) and 2 (one played board) under three orders
                 t.update(type='sweep', variant=(0, 2)[i % 2] + 6 * (i // 2), midcode=True)
